@@ -93,6 +93,19 @@ def cut_item(src, header_re, which=0, with_attrs=True):
     return src[start:end]
 
 
+def cut_all(src, header_re):
+    out, k = [], 0
+    while True:
+        try:
+            out.append(cut_item(src, header_re, which=k))
+        except ExtractError:
+            break
+        k += 1
+    if not out:
+        raise ExtractError(f"item not found: {header_re}")
+    return out
+
+
 def cut_fn(src, name, which=0):
     return cut_item(src, rf"^[ \t]*(?:pub(?:\([a-z]+\))?\s+)?(?:const\s+)?(?:async\s+)?(?:unsafe\s+)?fn\s+{name}\b", which)
 
@@ -219,6 +232,64 @@ def generate(repo, outdir, drivers_dir):
         write_if_changed(os.path.join(outdir, f"{backend}_keys.rs"), text)
         info["extracted"][rel] = {"sha256_16": sha(src), "mode": "items: " + ", ".join(names) + ", scan-iterator next (element slicing)" + (", in_domain" if backend == "rocks" else ""),
                                   "items_sha256_16": sha(text)}
+
+    # --- key-of-set staging overlay (C09): item extraction from key_of_set_map/cache.rs (+ 2 items of key_of_set_map.rs)
+    rel = S + "key_of_set_map/cache.rs"
+    src = read(repo, rel)
+    rel2 = S + "key_of_set_map.rs"
+    src2 = read(repo, rel2)
+    items = []
+    items += [cut_item(src2, r"^pub trait ConcurrentSet\b")]
+    items += [cut_item(src2, r"^pub struct OwnedIterator<")]
+    items += cut_all(src2, r"^impl<C: ConcurrentSet \+ 'static> Iterator for OwnedIterator<C>")
+    items += [cut_item(src, r"^enum Operation<V>")]
+    items += [cut_item(src, r"^enum Entry<C>")]
+    items += [cut_item(src, r"^pub struct VersionedOperation<V>")]
+    items += cut_all(src, r"^impl<V> \w+ for VersionedOperation<V>")
+    items += [cut_item(src, r"^enum ConcurrentLogMessage<V>")]
+    items += [cut_item(src, r"^struct ConcurrentLog<V>")]
+    items += cut_all(src, r"^impl<V: Eq \+ Hash \+ Clone> ConcurrentLog<V>")
+    items += [cut_item(src, r"^pub struct Spilled<")]
+    items += [cut_item(src, r"^pub struct StagingShapshot<T>")]
+    items += cut_all(src, r"^impl<T> StagingShapshot<T>")
+    items += [cut_item(src, r"^pub struct StagingShapshotIntoIter<T>")]
+    items += [cut_item(src, r"^pub enum MergeIterator<")]
+    mi = cut_all(src, r"^impl<\s*C: ConcurrentSet<Element = E>,")
+    items += mi
+    fetch = cut_fn(src, "fetch_entry")
+    apply_op = cut_fn(src, "apply_op")
+    m = re.search(r"// apply the operation to the log\s*\{(.*?)\n        \}\n", apply_op, re.S)
+    if not m:
+        raise ExtractError(f"{rel}: `apply_op` no longer has the 'apply the operation to the log' block")
+    stage_block = m.group(1)
+    flush = cut_fn(src, "flush_staging")
+    m2 = re.search(r"log\.apply_message\(ConcurrentLogMessage::FlushUpTo\(epoch\)\);", flush)
+    if not m2:
+        raise ExtractError(f"{rel}: `flush_staging` no longer sends FlushUpTo(epoch) to the log")
+    body = "\n\n".join(items)
+    body = body.replace("std::collections::hash_set::IntoIter<T>", "crate::shim::hash_set::IntoIter<T>")
+    # visibility only: private top-level items become `pub` so that the harness can name their types
+    body = re.sub(r"^(enum|struct) ", r"pub \1 ", body, flags=re.M)
+    text = ("// GENERATED from /repo/" + rel + " and /repo/" + rel2 + " (items cut verbatim) -- do not edit\n"
+            "#![allow(unused_imports, dead_code)]\n"
+            "use std::{hash::Hash, ops::Not, marker::PhantomData, sync::{Arc, atomic::{AtomicU64, AtomicUsize, Ordering}}};\n"
+            "use crossbeam::queue::SegQueue;\nuse fxhash::FxBuildHasher;\nuse parking_lot::RwLock;\nuse ouroboros::self_referencing;\n"
+            "use crate::shim::{BinaryHeap, HashSet};\n"
+            "use crate::kv_database::{KeyOfSetColumn, KvDatabase};\n"
+            "use crate::write_manager::write_behind::Epoch;\n\n"
+            + body +
+            "\n\npub struct CacheKeyOfSetMap<K, C, Db> { pub db: Db, pub _p: PhantomData<(K, C)> }\n"
+            "impl<K: KeyOfSetColumn, C: ConcurrentSet<Element = K::Element> + Send + Sync + 'static, Db: KvDatabase> CacheKeyOfSetMap<K, C, Db> {\n"
+            + re.sub(r"^(\s*)fn fetch_entry", r"\1pub fn fetch_entry", fetch, count=1, flags=re.M) + "\n}\n\n"
+            "/// the statement block of `apply_op` that stages one operation on a key's log (cut verbatim)\n"
+            "pub fn stage_op<V: Eq + Hash + Clone>(log: &ConcurrentLog<V>, op: Operation<V>, epoch: Epoch) {\n        {" + stage_block + "\n        }\n}\n"
+            "/// the call `flush_staging` makes on a key's log\n"
+            "pub fn flush_log<V: Eq + Hash + Clone>(log: &ConcurrentLog<V>, epoch: Epoch) {\n    " + m2.group(0) + "\n}\n"
+            + open(os.path.join(drivers_dir, "kos_driver.rs")).read())
+    write_if_changed(os.path.join(outdir, "kos_cache.rs"), text)
+    info["extracted"][rel] = {"sha256_16": sha(src), "mode": "items: Operation, Entry, VersionedOperation(+Ord impls), ConcurrentLogMessage, ConcurrentLog(+impl), Spilled, StagingShapshot(+impl), StagingShapshotIntoIter, MergeIterator(+Iterator impl), fn fetch_entry, staging block of apply_op, flush call of flush_staging",
+                              "items_sha256_16": sha(text), "substitutions": ["std::collections::{BinaryHeap, HashSet} -> crate::shim::{BinaryHeap, HashSet}"]}
+    info["extracted"][rel2] = {"sha256_16": sha(src2), "mode": "items: trait ConcurrentSet, OwnedIterator(+Iterator impl)"}
 
     write_if_changed(os.path.join(outdir, "tiny_lfu.rs"), "// GENERATED module shell (the real tiny_lfu.rs front needs scc and is outside reach)\npub mod lru;\npub mod policy;\npub mod sketch;\n")
     return info
